@@ -16,6 +16,7 @@ import Pycdlib.Model.Susp
 import Pycdlib.Model.Unicode
 import Pycdlib.Model.Udf
 import Pycdlib.Model.Boot
+import Pycdlib.Model.Hybrid
 namespace Pycdlib
 
 def parseCps (s : String) : Option (List Nat) :=
@@ -133,6 +134,9 @@ def dispatchPure (toks : List String) : Option String :=
     match Boot.mediaAndCount media (← cnt.toNat?) with
     | some (m, c) => pure s!"{m} {c}"
     | none => pure "invalidInput"
+  | ["calccc", size, heads, sectors] => do
+    let (cc, pad) := Hybrid.calcCc (← size.toNat?) (← heads.toNat?) (← sectors.toNat?)
+    pure s!"{cc} {pad}"
   | ["crc16", hx] => do let b ← ofHex hx; pure (toString (crc16 (b.map (·.toNat))))
   | ["crc32", hx] => do let b ← ofHex hx; pure (toString (crc32 (b.map (·.toNat))))
   | ["eltcsum", hx] => do let b ← ofHex hx; pure (toString (elToritoChecksum (b.map (·.toNat))))
